@@ -28,6 +28,8 @@ func RunStacks(repo *load.Repo, s *report.Sink) (err error) {
 	if m.cffp == nil {
 		return fmt.Errorf("package cff not loaded")
 	}
+	m.pkg = m.cffp // helper call sites of package cff (single-site helpers are analysed in context)
+	m.computeSites()
 	tp := m.cffp.Pkg
 	type stackT struct {
 		named *types.Named
@@ -364,12 +366,13 @@ func (m *model) isSplicedStack(fn *ssa.Function, v ssa.Value, p *ssa.Parameter) 
 	if mi, ok := v.(*ssa.MakeInterface); ok {
 		v = mi.X
 	}
+	v = m.resolve(v) // the stack may be built by a single-site helper
 	acc, ok := v.(*ssa.Phi)
 	if !ok {
 		return false
 	}
 	var tl *tloop
-	for _, t := range m.allTraversals(fn) {
+	for _, t := range m.allTraversals(acc.Parent()) {
 		if t.header == acc.Block() && t.sliceKey == m.key(p) {
 			tl = t
 		}
